@@ -209,8 +209,31 @@ def ggload : P String := do
     s!"{flist ((List.range n).map s.cur.psd)} {flist ((List.range (n+1)).map s.cur.bounds)} {fout (s.clock.getLastD 0.0)} {fout (Coupling.ggVolume s)}")
   pure (" ".intercalate (toString out.length :: out))
 
+/-- c18.precrow variant nSame nMixed nrows P [strength weakDominant]ᴾ per row → per row: value, strongest phase, same-regime flag;
+the per-phase (strength, flag) pairs are the ones the implementation reports (combineStrengthContributions);
+variant 0 = the code (one exponent per branch), 1 = mixed branch: power sum with nMixed, root with 1/nSame -/
+def precrow : P String := do
+  let v ← nat; let nS ← flt; let nM ← flt; let nrows ← nat; let np ← nat
+  let rows ← rep (rep (do let s ← flt; let b ← bool; pure ({ strength := s, weakDominant := b, tw := 0.0, ts := 0.0, oro := 0.0 } : Combined Float)) np) nrows
+  let out := rows.map (fun ph =>
+    let x := precRowWith fin Float.pow nS nS nM (if v = 0 then nM else nS) ph
+    s!"{fout x} {fout (maxOf (ph.map (fun c => clean fin c.strength)))} {bstr (sameRegime fin ph)}")
+  pure (" ".intercalate (toString out.length :: out))
+
+/-- c18.stopstep variant fuels flags → host rows, update indices, host index after every solve call;
+`flags` = what the stopping conditions said on host row 1, 2, … (false beyond the list);
+variant 0 = postProcess as it is (record, update coupled models, test), 1 = test first and return early -/
+def stopstep : P String := do
+  let v ← nat; let fuels ← lst nat; let flags ← lst bool
+  let stopAt : Nat → Bool := fun n => (flags.toArray.getD (n - 1) false) && decide (0 < n)
+  let s := Coupling.solveCalls (v = 1) stopAt Coupling.pinit fuels
+  let tr := Coupling.solveTrace (v = 1) stopAt Coupling.pinit fuels
+  pure (" ".intercalate ([toString s.n, toString s.upd.length] ++ s.upd.map toString ++ [toString tr.length] ++ tr.map toString))
+
 def handle (verb : String) : Option (P String) :=
   match verb with
+  | "c18.precrow" => some precrow
+  | "c18.stopstep" => some stopstep
   | "c18.hcouple" => some hcouple
   | "c18.ggload" => some ggload
   | "c18.gen" => some gen
